@@ -310,7 +310,7 @@ func c14(c *Ctx) {
 							c.R.Ok("R-results", fk+"|corrupt-discarded", fk, c.P.Pos(um.Pos()), "every path from the error edge of json.Unmarshal calls Delete(key)")
 						}
 						// unmarshal target is the variable the method returns
-						tgt := ir.Root(um.Call.Args[1])
+						tgt := ir.RootP(um.Call.Args[1], mi.tb.ParamCallers)
 						returned := false
 						for _, r := range ir.Returns(mi.fn) {
 							rv := ir.Resolve(r.Results[0])
